@@ -148,6 +148,12 @@ void
 mtbl_sorter_destroy(struct mtbl_sorter **s)
 {
 	if (*s) {
+		/*
+		 * Wait for in-flight chunk jobs first: their results are
+		 * delivered into (*s)->readers.
+		 */
+		result_handler_destroy(&(*s)->rhandler);
+
 		for (unsigned i = 0; i < entry_vec_size((*s)->vec); i++) {
 			struct entry *ent = entry_vec_value((*s)->vec, i);
 			free(ent);
@@ -160,7 +166,6 @@ mtbl_sorter_destroy(struct mtbl_sorter **s)
 		}
 		reader_vec_destroy(&((*s)->readers));
 
-		result_handler_destroy(&(*s)->rhandler);
 		free((*s)->opt.tmp_dname);
 		my_free(*s);
 	}
